@@ -216,12 +216,19 @@ def gs (c : List String) (impl : List String) : String :=
   | some proto, some stage, some phase, some idle, some bg, some drain, some hold, some succ =>
     let n := idle + bg + 1
     let s := gsModel proto stage phase n drain hold
-    let exitFirst := s.exited
+    let extra := kv c "extra" == some "1"
+    -- a further request begun on the same (multiplexed) connection right after the signal is independent of the one in
+    -- flight — unless the HTTP/2 layer answers the DATA frame of the ignored stream with a connection error
+    let killed := extra && proto == "h2" && !Gen.Shutdown.h2DiscardsDataAboveLastStream
+    let exitFirst := s.exited || killed
     -- in one process nothing exits: the rest of the request, a late request and a new connection are then played
     let s1 := { s with exited := false }
     let main := n - 1
     let s2 := Model.Shutdown.run s1 [Ev.bytes main, Ev.decoded main, Ev.respDone main]
-    let req := outcome s1 s2 main
+    let req := if killed then "fail" else outcome s1 s2 main
+    let extraOut := if !extra then "na" else
+      outcome s1 (Model.Shutdown.run { s1 with conns := modifyAt s1.conns main (fun k => { k with phase := Phase.idle }) }
+        [Ev.decoded main, Ev.respDone main]) main
     let s3 := Model.Shutdown.run s2 [Ev.decoded 0, Ev.respDone 0]
     let late := if idle == 0 then "na" else outcome s2 s3 0
     -- background clients: each issues a further request after the signal
@@ -230,7 +237,7 @@ def gs (c : List String) (impl : List String) : String :=
       (match probeResult s.lis with | "acc" => "srv" | x => x)
     let ga := joinWith "," (s.conns.map (fun k => toString k.goAway))
     let cga := (s.conns.map (·.notified)).foldl (· + ·) 0
-    let out := s!"req={req} new={newc} exitfirst={if exitFirst then 1 else 0} goaway={ga} cga={cga} late={late} bgfail={(bgOut.filter (· == "fail")).length} bgretry={(bgOut.filter (· == "retry")).length} lstate={s.lis.state} shut=ok"
+    let out := s!"req={req} new={newc} exitfirst={if exitFirst then 1 else 0} goaway={ga} cga={cga} late={late} bgfail={(bgOut.filter (· == "fail")).length} bgretry={(bgOut.filter (· == "retry")).length} lstate={s.lis.state} shut=ok extra={extraOut}"
     -- reference property, literal values: 13 = Upgrading; h2 = the protocol whose go-away lets the client retry
     let g (k : String) := (kv impl k).getD "?"
     let upgrade := stage == 13
@@ -244,6 +251,7 @@ def gs (c : List String) (impl : List String) : String :=
       && gas.length == n && gas.all (· == "1")
       && (proto == "h1" || g "cga" == toString n)
       && (!upgrade || idle == 0 || g "late" == "ok" || (proto == "h2" && g "late" == "retry"))
+      && (g "extra" == "na" || g "extra" == "ok" || (proto == "h2" && g "extra" == "retry"))
     verdict (joinWith " " impl == out) spec out
   | _, _, _, _, _, _, _, _ => "E E bad-case"
 
